@@ -917,6 +917,14 @@ class BaseInterpreter(Generic[TContext, TEvent]):
                 if machine.get_state_by_id(nid)
             ]
             if nodes:
+                # 🔀 `_record_history` keeps the remembered list in
+                #    (depth, id) order and that order decides the entry
+                #    order of a later deep-history restore. The snapshot
+                #    stores ids sorted by id alone, so re-establish the
+                #    recording order here; otherwise a restored machine
+                #    re-enters the remembered leaves in another order than
+                #    the machine it was saved from.
+                nodes.sort(key=lambda n: (n.depth, n.id))
                 interpreter._history[parent_id] = nodes
 
         # 👶 Restore child actors. Their machine definitions are resolved from
